@@ -510,13 +510,25 @@ Inductive cop :=
 | CSetPluginContainer (p : option N) | CSetStat (s : option status) | CSetContext (x : option N)
 | CSetStart (now : Z)              (* binding / Push / send: c.start = timeNow() *)
 | CRecordCost (now : Z)            (* c.cost = now - c.start *)
-| CObserve.                        (* read everything a handler can read *)
+| CObserve                         (* read every field but start *)
+| CHandlerView.                    (* what CallCtx / PushCtx / ReadCtx expose to handlers and plugins *)
 
 Definition v_actx (a : actx) : val :=
   VL [vtag (ac_sess a); v_amsg (ac_input a); v_amsg (ac_output a); vtag (ac_handler a); vtag (ac_arg a);
       vtag (ac_call_cmd a);
       match ac_swap a with None => vsym "nil" | Some m => VL (map vkv m) end;
       VZ (ac_cost a); vtag (ac_plugin_container a); vstatus (ac_stat a); vtag (ac_context a)].
+
+(* the public Message getters (no access to newBodyFunc) *)
+Definition v_amsg_pub (a : amsg) : val :=
+  VL [VZ (am_seq a); VN (b2n (am_mtype a)); VB (am_service_method a); vstatus (am_status a);
+      VL (map vkv (am_meta a)); VN (b2n (am_body_codec a)); vbody (am_body a);
+      VB (am_xfer_ids a); vtag (am_ctx a); VN (am_size a)].
+
+Definition v_handler_view (a : actx) : val :=
+  VL [vtag (ac_sess a); v_amsg_pub (ac_input a); v_amsg_pub (ac_output a);
+      match ac_swap a with None => vsym "nil" | Some m => VL (map vkv m) end;
+      vstatus (ac_stat a); vtag (ac_context a)].
 
 Definition ctx_step (c : hctx) (o : cop) : res (hctx * list val) :=
   match o with
@@ -553,6 +565,7 @@ Definition ctx_step (c : hctx) (o : cop) : res (hctx * list val) :=
                             (c_swap c) (c_start c) (now - c_start c) (c_plugin_container c) (c_stat c)
                             (c_context c), [])
   | CObserve => Ok (c, [v_actx (abs_ctx c)])
+  | CHandlerView => Ok (c, [v_handler_view (abs_ctx c)])
   end.
 
 (* ================================ socket/socket.go ================================== *)
@@ -607,7 +620,8 @@ Inductive sop :=
 | SSwapStore (k v : bytes)           (* Swap().Store(k, v): creates the map on first use *)
 | SSwapSet (m : swapmap)             (* Swap(newSwap) *)
 | SRead (n : nat)                    (* Read(p) with len(p) = n, n < readerSize *)
-| SObserve.                          (* ID, SwapLen, Swap contents, Raw, protocol *)
+| SObserve                           (* ID, SwapLen, Swap contents, Raw, protocol *)
+| SClose.                            (* Close(): result and whether the connection got closed *)
 
 Definition reader_size : nat := 1024.
 
@@ -632,14 +646,14 @@ Definition sock_step (s : sock) (o : sop) : sock * list val :=
   | SSwapSet m => (mkSock (s_conn s) (s_rbuf s) (s_rsrc s) (s_pending s) (s_protocol s) (s_id s)
                           (Some m) (s_closed s) (s_from_pool s), [])
   | SRead n => let '(s', got) := sock_read s n in (s', [VB got])
+  | SClose => (sock_close s, [VL [vsym "closed"; vbool (negb (s_closed s)); vtag (s_conn s)]])
   | SObserve =>
       (s, [VL [(* ID(): the id, or the remote address of the connection when empty *)
                (if is_nil (s_id s) then VL [vsym "addr"; conn_addr (s_conn s)] else VL [vsym "id"; VB (s_id s)]);
                VN (N.of_nat (match s_swap s with None => 0 | Some m => length m end));
                VL (map vkv (match s_swap s with None => [] | Some m => m end));
                vtag (s_conn s);
-               match s_protocol s with None => vsym "nil" | Some (t, c) => VL [VN t; VN c] end;
-               vbool (s_closed s)]])
+               match s_protocol s with None => vsym "nil" | Some (t, c) => VL [VN t; VN c] end]])
   end.
 
 End WithRegistry.
